@@ -14,7 +14,7 @@ for f in sorted(glob.glob(os.path.join(here, "lean", "Vata", "Properties", "*.le
     for m in re.finditer(r"^theorem (C(\d\d)_\w+)", txt, flags=re.M):
         found.setdefault("C" + m.group(2), []).append("Vata.Props." + m.group(1))
 # theorems about the utility classes under the algorithms are audited with the properties whose checks run their histories
-UTIL = {"OrdVector": ["C07", "C08", "C09"], "Antichain": ["C01", "C07", "C09"], "BinRel": ["C04", "C05", "C16"], "Cache": ["C01", "C07", "C09"], "Glue": ["C02", "C08", "C13"], "CliArgs": ["C01", "C07", "C09"], "LtsUtil": ["C04", "C16"]}
+UTIL = {"OrdVector": ["C07", "C08", "C09"], "Antichain": ["C01", "C07", "C09"], "BinRel": ["C04", "C05", "C16"], "Cache": ["C01", "C07", "C09"], "Glue": ["C02", "C07", "C08", "C13"], "CliArgs": ["C01", "C07", "C09"], "LtsUtil": ["C04", "C16"]}
 for f in sorted(glob.glob(os.path.join(here, "lean", "Vata", "Properties", "Util_*.lean"))):
     txt = open(f).read()
     for m in re.finditer(r"^theorem (Util_([A-Za-z]+)_\w+)", txt, flags=re.M):
